@@ -78,3 +78,91 @@ theorem logicalLines_trimmed (t : List Char) (l : List Char) (h : l ∈ logicalL
   intro he; simp [he] at hne
 
 end ILV.Text
+
+namespace ILV.Text
+
+/-! ### single-line texts -/
+
+theorem trim_of_trimmed (l : List Char) (h : Trimmed l) : trim l = l := by
+  rcases h with ⟨⟨c, cs, rfl, hc⟩, ⟨d, ds, hd, hdw⟩⟩
+  unfold trim trimEnd
+  rw [trimStart_of_nonws c cs hc, hd, trimStart_of_nonws d ds hdw, ← hd]
+  simp
+
+theorem trim_nil : trim [] = [] := by decide
+
+theorem trim_idem (t : List Char) : trim (trim t) = trim t := by
+  by_cases h : trim t = []
+  · rw [h]; exact trim_nil
+  · exact trim_of_trimmed _ (trim_trimmed t h)
+
+theorem splitNl_noNl : ∀ t : List Char, '\n' ∉ t → splitNl t = [t] := by
+  intro t
+  induction t with
+  | nil => intro _; rfl
+  | cons c cs ih =>
+    intro h
+    have hc : c ≠ '\n' := fun e => h (by simp [e])
+    have hcs : '\n' ∉ cs := fun e => h (by simp [e])
+    unfold splitNl
+    rw [ih hcs]
+    simp [hc]
+
+theorem rustLines_noNl (t : List Char) (h : '\n' ∉ t) : rustLines t = if t.isEmpty then [] else [t] := by
+  unfold rustLines
+  rw [splitNl_noNl t h]
+  simp
+
+theorem joinNl_nil : joinNl [] = [] := by decide
+theorem joinNl_single (t : List Char) : joinNl [t] = t := by
+  unfold joinNl; simp [List.intercalate]
+
+theorem stripComments_noNl (t : List Char) (h : '\n' ∉ t) : stripComments t = t ∨ stripComments t = [] := by
+  unfold stripComments
+  rw [rustLines_noNl t h]
+  by_cases he : t.isEmpty = true
+  · right; simp [he, joinNl_nil]
+  · simp only [he]
+    by_cases hf : (!(startsWith ['%'] (trim t)) && !(startsWith ['/', '/'] (trim t))) = true
+    · left; simp [List.filter, hf, joinNl_single]
+    · right; simp [List.filter, hf, joinNl_nil]
+
+theorem joinContinuation_noNl (t : List Char) (h : '\n' ∉ t) :
+    joinContinuation t = t ∨ (joinContinuation t = [] ∧ trim t = []) := by
+  unfold joinContinuation
+  rw [rustLines_noNl t h]
+  by_cases he : t.isEmpty = true
+  · have : t = [] := by simpa using he
+    subst this
+    right; exact ⟨by decide, trim_nil⟩
+  · simp only [he]
+    by_cases ht : (trim t).isEmpty = true
+    · right
+      have : trim t = [] := by simpa using ht
+      refine ⟨?_, this⟩
+      simp [List.foldl, joinStep, ht, joinNl, List.intercalate]
+    · left
+      simp [List.foldl, joinStep, ht, joinNl_single]
+
+/-- a text without a newline has at most one logical line, and it is the trimmed text -/
+theorem logicalLines_noNl (t : List Char) (h : '\n' ∉ t) :
+    logicalLines t = [] ∨ (logicalLines t = [trim t] ∧ stripComments t = t) := by
+  unfold logicalLines
+  have hnil : (List.filter (fun l : List Char => !l.isEmpty) (List.map trim (rustLines (joinContinuation [])))) = [] := by decide
+  rcases stripComments_noNl t h with hs | hs
+  · have h1 : (List.filter (fun l : List Char => !l.isEmpty) (List.map trim (rustLines (joinContinuation t)))) = [] ∨
+        (List.filter (fun l : List Char => !l.isEmpty) (List.map trim (rustLines (joinContinuation t)))) = [trim t] := by
+      rcases joinContinuation_noNl t h with hj | ⟨hj, ht⟩
+      · rw [hj, rustLines_noNl t h]
+        by_cases he : t.isEmpty = true
+        · left; simp [he]
+        · by_cases ht : (trim t).isEmpty = true
+          · left; simp [he, List.filter, ht]
+          · right; simp [he, List.filter, ht]
+      · left; rw [hj]; decide
+    rcases h1 with h1 | h1
+    · left; rw [hs]; exact h1
+    · right; exact ⟨by rw [hs]; exact h1, hs⟩
+  · left; rw [hs]; exact hnil
+
+end ILV.Text
